@@ -157,10 +157,10 @@ def jobs(tier):
     roles = ("routing", "net", "mesh")
     if tier == "quick":
         rc = [(r, l, lf, ld) for r in roles for l in range(5) for lf in range(5) for ld in range(5)
-              if not (r == "mesh" and l == 0) and (lf, ld) != (0, 0) and (l * 7 + lf * 3 + ld + len(r)) % 12 == 0]
+              if not (r == "mesh" and l == 0) and (lf, ld) != (0, 0) and (l, ld) != (0, 0) and (l * 7 + lf * 3 + ld + len(r)) % 12 == 0]
     else:
         rc = [(r, l, lf, ld) for r in roles for l in range(5) for lf in range(5) for ld in range(5)
-              if not (r == "mesh" and l == 0) and (lf, ld) != (0, 0) and (l + lf + ld) % 2 == 0]
+              if not (r == "mesh" and l == 0) and (lf, ld) != (0, 0) and (l, ld) != (0, 0) and (l + lf + ld) % 2 == 0]
     for r, l, lf, ld in rc:
         out.append(Job("O2-last-hop-acks-once", o2_last_hop, dict(role=r, lvl=l, lf=lf, ld=ld), cost=20, shards=2))
     return out
